@@ -92,7 +92,7 @@ func runC33(c *core.Ctx) {
 		}
 		c.Hold("C33.consume", m, "pending request "+get.Shape.Canon()+" deleted on approval", c.P.Rel(match.TopCall.Pos()), "same shape, same request id")
 		// on every approved success path
-		notApproved := ir.PassEdges(m, ir.BoolIs(ir.CallTo(ccs), false))
+		notApproved := eng.PassEdgesThrough(m, ir.BoolIs(ir.CallTo(ccs), false))
 		if len(notApproved) == 0 {
 			c.Broken("C33.consume-on-every-path", m, "CheckConsensusSigns test", c.P.Rel(m.Pos()), "no test of CheckConsensusSigns result")
 			continue
